@@ -4,6 +4,14 @@ import StamModel.Lemmas.Store
 -/
 namespace Stam
 
+theorem mem_lookup' (s : State) (k : Key) (x : Nat) : x ∈ s.lookup k ↔ (k, x) ∈ s.edges := by
+  simp only [State.lookup, List.mem_map, List.mem_filter]
+  constructor
+  · rintro ⟨e, ⟨he, hk⟩, hx⟩
+    simp at hk
+    cases e; simp at hk hx; subst hk; subst hx; exact he
+  · intro h; exact ⟨(k, x), ⟨h, by simp⟩, rfl⟩
+
 theorem eraseAll_props (h : Nat) : ∀ (ks : List Key) (es : List (Key × Nat)), es.Nodup → EdgesSorted es →
     (ks.foldl (fun es k => eraseEdge es k h) es).Nodup ∧ EdgesSorted (ks.foldl (fun es k => eraseEdge es k h) es) ∧
     ∀ e, e ∈ ks.foldl (fun es k => eraseEdge es k h) es ↔ (e ∈ es ∧ ¬ (e.2 = h ∧ e.1 ∈ ks)) := by
@@ -34,6 +42,26 @@ theorem eraseAll_props (h : Nat) : ∀ (ks : List Key) (es : List (Key × Nat)),
       · intro h3; subst h3; exact h2 ⟨rfl, by simp⟩
       · rintro ⟨h4, h5⟩; exact h2 ⟨h4, by simp [h5]⟩
 
+/-- annotation `x` targets annotation `t` (anywhere in its selector) -/
+def Targets (s : State) (x t : Nat) : Prop := ∃ a, getLive s.anns x = some a ∧ Key.ann t ∈ a.fwd
+
+/-- `y` depends on `h`: it is `h` or targets something that depends on `h` -/
+inductive DependsOn (s : State) (h : Nat) : Nat → Prop
+  | self : DependsOn s h h
+  | step {y t : Nat} : Targets s y t → DependsOn s h t → DependsOn s h y
+
+theorem DependsOn.mono {s s' : State} {h y : Nat}
+    (hm : ∀ x a, getLive s'.anns x = some a → getLive s.anns x = some a)
+    (hd : DependsOn s' h y) : DependsOn s h y := by
+  induction hd with
+  | self => exact .self
+  | step ht _ ih => obtain ⟨a, ha, hk⟩ := ht; exact .step ⟨a, hm _ _ ha, hk⟩ ih
+
+theorem DependsOn.via {s : State} {d h y : Nat} (hd : DependsOn s d y) (ht : Targets s d h) : DependsOn s h y := by
+  induction hd with
+  | self => exact .step ht .self
+  | step ht' _ ih => exact .step ht' ih
+
 /-- what one successful `removeAnn` guarantees -/
 structure Removed (s s' : State) (h : Nat) : Prop where
   inv : Inv s'
@@ -42,6 +70,11 @@ structure Removed (s s' : State) (h : Nat) : Prop where
   gone : getLive s'.anns h = none
   res : s'.res = s.res
   sets : s'.sets = s.sets
+  /-- no survivor refers to anything that was removed -/
+  clean : ∀ y, (getLive s.anns y).isSome → getLive s'.anns y = none →
+    ∀ x a, getLive s'.anns x = some a → Key.ann y ∉ a.fwd
+  /-- only dependants of `h` were removed -/
+  dep : ∀ y, (getLive s.anns y).isSome → getLive s'.anns y = none → DependsOn s h y
 
 /-- folding conditional removals over a list: invariant kept, nothing revived, every listed handle gone -/
 theorem fold_removed (f : State → Nat → Option State)
@@ -49,10 +82,17 @@ theorem fold_removed (f : State → Nat → Option State)
     ∀ (ds : List Nat) (s s' : State), Inv s →
     ds.foldl (fun acc d => acc.bind (fun st => if (getLive st.anns d).isSome then f st d else some st)) (some s) = some s' →
     Inv s' ∧ s'.anns.length = s.anns.length ∧ (∀ x a, getLive s'.anns x = some a → getLive s.anns x = some a) ∧
-    (∀ d ∈ ds, getLive s'.anns d = none) ∧ s'.res = s.res ∧ s'.sets = s.sets := by
+    (∀ d ∈ ds, getLive s'.anns d = none) ∧ s'.res = s.res ∧ s'.sets = s.sets ∧
+    (∀ y, (getLive s.anns y).isSome → getLive s'.anns y = none →
+      ∀ x a, getLive s'.anns x = some a → Key.ann y ∉ a.fwd) ∧
+    (∀ y, (getLive s.anns y).isSome → getLive s'.anns y = none → ∃ d ∈ ds, DependsOn s d y) := by
   intro ds
   induction ds with
-  | nil => intro s s' hi h; simp at h; subst h; exact ⟨hi, rfl, fun _ _ h => h, by simp, rfl, rfl⟩
+  | nil =>
+    intro s s' hi h; simp at h; subst h
+    refine ⟨hi, rfl, fun _ _ h => h, by simp, rfl, rfl, ?_, ?_⟩
+    · intro y hy hg; rw [hg] at hy; cases hy
+    · intro y hy hg; rw [hg] at hy; cases hy
   | cons d ds ih =>
     intro s s' hi h
     simp only [List.foldl_cons, Option.bind_some] at h
@@ -67,27 +107,40 @@ theorem fold_removed (f : State → Nat → Option State)
       | some s1 =>
         rw [hfd] at h
         have r := hf s d s1 hi hl hfd
-        obtain ⟨i1, i2, i3, i4, i5, i6⟩ := ih s1 s' r.inv h
-        refine ⟨i1, by rw [i2, r.len], fun x a hx => r.mono x a (i3 x a hx), ?_, by rw [i5, r.res], by rw [i6, r.sets]⟩
-        intro x hx
+        obtain ⟨i1, i2, i3, i4, i5, i6, i7, i8⟩ := ih s1 s' r.inv h
+        refine ⟨i1, by rw [i2, r.len], fun x a hx => r.mono x a (i3 x a hx), ?_, by rw [i5, r.res], by rw [i6, r.sets], ?_, ?_⟩
+        · intro x hx
+          simp only [List.mem_cons] at hx
+          rcases hx with hx | hx
+          · subst hx
+            cases hg : getLive s'.anns x with
+            | none => rfl
+            | some a => have := i3 x a hg; rw [r.gone] at this; cases this
+          · exact i4 x hx
+        · intro y hy hg x a hx
+          cases hy1 : getLive s1.anns y with
+          | none => exact r.clean y hy hy1 x a (i3 x a hx)
+          | some ay => exact i7 y (by simp [hy1]) hg x a hx
+        · intro y hy hg
+          cases hy1 : getLive s1.anns y with
+          | none => exact ⟨d, by simp, r.dep y hy hy1⟩
+          | some ay =>
+            obtain ⟨d', hd', hdep⟩ := i8 y (by simp [hy1]) hg
+            exact ⟨d', by simp [hd'], hdep.mono r.mono⟩
+    · simp only [hl, if_false] at h
+      obtain ⟨i1, i2, i3, i4, i5, i6, i7, i8⟩ := ih s s' hi h
+      refine ⟨i1, i2, i3, ?_, i5, i6, i7, ?_⟩
+      · intro x hx
         simp only [List.mem_cons] at hx
         rcases hx with hx | hx
         · subst hx
           cases hg : getLive s'.anns x with
           | none => rfl
-          | some a => have := i3 x a hg; rw [r.gone] at this; cases this
+          | some a => have := i3 x a hg; simp [this] at hl
         · exact i4 x hx
-    · simp only [hl, if_false] at h
-      obtain ⟨i1, i2, i3, i4, i5, i6⟩ := ih s s' hi h
-      refine ⟨i1, i2, i3, ?_, i5, i6⟩
-      intro x hx
-      simp only [List.mem_cons] at hx
-      rcases hx with hx | hx
-      · subst hx
-        cases hg : getLive s'.anns x with
-        | none => rfl
-        | some a => have := i3 x a hg; simp [this] at hl
-      · exact i4 x hx
+      · intro y hy hg
+        obtain ⟨d', hd', hdep⟩ := i8 y hy hg
+        exact ⟨d', by simp [hd'], hdep⟩
 
 theorem removeAnn_removed : ∀ (fuel : Nat) (s s' : State) (h : Nat), Inv s →
     State.removeAnn fuel s h = some s' → Removed s s' h := by
@@ -108,7 +161,7 @@ theorem removeAnn_removed : ∀ (fuel : Nat) (s s' : State) (h : Nat), Inv s →
       | some st =>
         rw [hfold] at hr
         simp only [Option.bind_some] at hr
-        obtain ⟨i1, i2, i3, i4, i5, i6⟩ := fold_removed (State.removeAnn fuel)
+        obtain ⟨i1, i2, i3, i4, i5, i6, i7, i8⟩ := fold_removed (State.removeAnn fuel)
           (fun s d s' hi _ hf => ih s s' d hi hf) (s.lookup (.ann h)) s st hi hfold
         cases hla : getLive st.anns h with
         | none => rw [hla] at hr; cases hr
@@ -130,7 +183,13 @@ theorem removeAnn_removed : ∀ (fuel : Nat) (s s' : State) (h : Nat), Inv s →
           have hs1 : EdgesSorted (st.edges.filter (fun e => e.1 != Key.ann h)) := List.Pairwise.filter _ i1.sorted
           obtain ⟨g1, g2, g3⟩ := eraseAll_props h a.fwd _ hn1 hs1
           have hlt := getLive_lt _ _ _ hla
-          refine ⟨⟨?_, g1, g2⟩, by simp [length_setAt, i2], ?_, ?_, i5, i6⟩
+          have hmono' : ∀ x a', getLive (setAt st.anns h none) x = some a' → getLive st.anns x = some a' := by
+            intro x a' hx
+            rw [getLive_setAt] at hx
+            by_cases hc : h = x ∧ h < st.anns.length
+            · rw [if_pos hc] at hx; cases hx
+            · rw [if_neg hc] at hx; exact hx
+          refine ⟨⟨?_, g1, g2⟩, by simp [length_setAt, i2], ?_, ?_, i5, i6, ?_, ?_⟩
           · intro k x
             simp only []
             rw [g3, getLive_setAt]
@@ -163,6 +222,37 @@ theorem removeAnn_removed : ∀ (fuel : Nat) (s s' : State) (h : Nat), Inv s →
           · simp only []
             rw [getLive_setAt]
             simp [hlt]
+          · -- clean
+            intro y hy hg x a' hx
+            simp only [] at hg hx
+            have hx' := hmono' x a' hx
+            cases hy1 : getLive st.anns y with
+            | none => exact i7 y hy hy1 x a' hx'
+            | some ay =>
+              have : y = h := by
+                rw [getLive_setAt] at hg
+                by_cases hc : h = y ∧ h < st.anns.length
+                · exact hc.1.symm
+                · rw [if_neg hc, hy1] at hg; cases hg
+              subst this
+              exact hno x a' hx'
+          · -- dep
+            intro y hy hg
+            simp only [] at hg
+            cases hy1 : getLive st.anns y with
+            | none =>
+              obtain ⟨d, hd, hdep⟩ := i8 y hy hy1
+              have hmem : (Key.ann h, d) ∈ s.edges := (mem_lookup' s (.ann h) d).1 hd
+              obtain ⟨ad, had, hkd⟩ := (hi.mem _ _).1 hmem
+              exact hdep.via ⟨ad, had, hkd⟩
+            | some ay =>
+              have : y = h := by
+                rw [getLive_setAt] at hg
+                by_cases hc : h = y ∧ h < st.anns.length
+                · exact hc.1.symm
+                · rw [if_neg hc, hy1] at hg; cases hg
+              subst this
+              exact .self
 
 theorem removeAnnIfPresent_spec (s s' : State) (h : Nat) (hi : Inv s) (hr : s.removeAnnIfPresent h = some s') :
     Inv s' ∧ s'.anns.length = s.anns.length ∧ (∀ x a, getLive s'.anns x = some a → getLive s.anns x = some a) ∧
